@@ -1,7 +1,9 @@
 ENTRY = dict(
     runner="C23", pkg="./cmd/c23", corr=["Corr.C23Corr"], n=dict(quick=160, thorough=6000), runner_timeout=3000,
     rule="UQUICConn (4 TLS 1.3-only custom QUIC specs with quic_transport_parameters, HelloGolang, 3 predefined non-QUIC ids) "
-         "paired with the package's QUICServer; CRYPTO data delivered in random chunks in random client/server order; one of 20 "
+         "paired with the package's QUICServer; four driver disciplines (drain to QUICNoEvent after every call; eager: act on each event at once "
+         "and feed replies back before popping the next; feed-first; random choice among pop / feed client / feed server), CRYPTO data in "
+         "random chunks; one of 20 "
          "injections per run (none, HRR via server CurvePreferences, no ServerName, MinVersion below 1.3, unbuildable hello, "
          "server ALPN alert, certificate verification failure, context cancelled before Start / mid-handshake, Close mid-handshake, "
          "data at the wrong level, ids without quic_transport_parameters, HelloGolang with parameters before/after the "
@@ -9,7 +11,7 @@ ENTRY = dict(
          "client call under a 2 s watchdog (a call still blocked after a further 4 s grace period is a hang). Distinct by (scenario, call trace); non-trivial when the handshake completed or the "
          "trace has more than 6 calls.",
     trusted_base=["Go runtime scheduler and channel semantics (modelled as rendez-vous steps)", "the package's own QUICServer as the peer",
-                  "script reconstruction in the runner (events drained after each call = events created during it)"],
+                  "hooks/verif_c23.go VerifPendingEvents (number of undelivered events; lets the runner attribute every event to the call that created it)"],
     assumes=["every piece of handshake code between two quicWaitForSignal calls terminates (scripts are finite)",
              "an error return from quicWaitForSignal is propagated without creating further events",
              "HandleData / SetTransportParameters-after-Start are only called after a Start that passed the MinVersion check"],
